@@ -71,10 +71,14 @@ REC_CHUNK = 16384
 SWEEP_SIZES = (0, 1, 16384, 16385, 40000)
 TEXTS = ("hello", "", "it's", 'say "hi"', "both ' and \"", "back\\slash",
          "tab\tnewline\nbell\x07", "ünïcödé \U0001F600  ", "\x1b[31mred",
-         "a" * 5000, " ")
+         "a" * 5000, " ",
+         # not in Unicode NFC form: must arrive as the same code points
+         "re\u0301sume\u0301", "\u212b ngstro\u0308m \u2126",
+         "\u1112\u1161\u11ab")
 NAMES = ("plain.txt", "with space.bin", "ünï.dat", "quote'.txt", "a.b.c",
          "UPPER", "x" * 100, "dash-name", ".hidden", "2024\\Q3 report.bin",
-         "back\\up", "semi;colon", "star*", "tab\tname")
+         "back\\up", "semi;colon", "star*", "tab\tname",
+         "re\u0301sume\u0301.txt", "\u212bngstrom.dat")
 
 
 def record_layout(size):
